@@ -69,10 +69,26 @@ def check(P, R):
         ctxs = [c for c in walk_shallow(rn.node) if isinstance(c, ast.Dict)]
     R.require(ctxs, 'render: template context not found')
     ctx = ctxs[0]
-    cn = g.node_of_stmt(ctx)[0]
-    fields = {k.arg: k.value for k in ctx.keywords} if isinstance(ctx, ast.Call) else {const(k): v for k, v in zip(ctx.keys, ctx.values)}
+    cn0 = g.node_of_stmt(ctx)[0]
+    # the context may be written in one piece (dict(...) / {...}) or filled key by key (`ctx = {}; ctx['url'] = ...`)
+    entries = []        # (key, value expr, CFG node)
+    if isinstance(ctx, ast.Call):
+        entries += [(k.arg, k.value, cn0) for k in ctx.keywords]
+    else:
+        entries += [(const(k), v, cn0) for k, v in zip(ctx.keys, ctx.values)]
+    st0 = stmt_of(ctx)
+    cvar = st0.targets[0].id if isinstance(st0, ast.Assign) and isinstance(st0.targets[0], ast.Name) and st0.value is ctx else None
+    if cvar:
+        for st_ in walk_shallow(rn.node):
+            if isinstance(st_, ast.Assign) and len(st_.targets) == 1 and isinstance(st_.targets[0], ast.Subscript) \
+                    and isinstance(st_.targets[0].value, ast.Name) and st_.targets[0].value.id == cvar and isinstance(const(st_.targets[0].slice), str):
+                entries.append((const(st_.targets[0].slice), st_.value, g.node_of_stmt(st_)[0]))
+    R.require(entries, 'render: the template context has no recognisable keys')
+    fields = {}
+    for (k_, v_, n_) in entries:
+        fields.setdefault(k_, v_)
     # ---- a: every context value except `e`
-    for name, v in sorted(fields.items()):
+    for name, v, cn in sorted(entries, key=lambda e: (e[0], getattr(e[1], 'lineno', 0))):
         if isinstance(v, ast.Name) and v.id == rn.params[0]:
             continue
         leaves = tainted_leaves(rn, v, cn)
@@ -100,18 +116,24 @@ def check(P, R):
             R.ob('C20.a', rn, v, oke, text='ctx[url] derives from escape(url)', detail='' if oke else 'the url field is not the escaped url argument', key_extra='url-escaped')
     # exception / traceback constants unless debug
     dbg = rn.params[2]
-    for name in ('exception', 'traceback'):
-        v = fields.get(name)
-        if v is None or not isinstance(v, ast.Name):
+
+    def under_debug(node_):
+        return any(isinstance(e_, ast.Name) and e_.id == dbg and holds_ for (e_, holds_, _) in T.guard_atoms(rn, node_))
+    for (name, v, cn) in entries:
+        if name not in ('exception', 'traceback'):
             continue
-        defs = rd.at(cn, v.id)
-        okd = bool(defs)
-        for d in defs:
-            if isinstance(d.value, ast.Constant):
-                continue
-            t = enclosing(d.stmt, ast.If)
-            if not (t is not None and isinstance(t.test, ast.Name) and t.test.id == dbg and T._inside(d.stmt, t.body)):
-                okd = False
+        if isinstance(T.module_value(rn, v), ast.Constant) or under_debug(cn):
+            okd = True
+        elif isinstance(v, ast.Name):
+            defs = rd.at(cn, v.id)
+            okd = bool(defs)
+            for d in defs:
+                if d.value is not None and isinstance(T.module_value(rn, d.value), ast.Constant):
+                    continue
+                if not under_debug(d.node):
+                    okd = False
+        else:
+            okd = False
         R.ob('C20.a', rn, v, okd, text=f'ctx[{name}] is a constant unless debug', detail='' if okd else
              f'`{name}` can carry exception text (which may quote request data) with debug off', key_extra=name + '-const')
 
@@ -261,6 +283,20 @@ def check(P, R):
                 order = [p_[0] for p_ in tbl]
                 inner = c
     if order is None:
+        # one simultaneous pass: <str>.translate(<table built by str.maketrans from a constant dict>)
+        tr_ = [c for c in ast.walk(he_.node) if isinstance(c, ast.Call) and call_attr(c) == 'translate' and len(c.args) == 1]
+        rets_h = [n for n in walk_shallow(he_.node) if isinstance(n, ast.Return)]
+        if len(tr_) == 1 and len(rets_h) == 1 and rets_h[0].value is tr_[0] and isinstance(tr_[0].func.value, ast.Name) and tr_[0].func.value.id == he_.params[0]:
+            tb_ = T.module_value(he_, tr_[0].args[0])
+            if isinstance(tb_, ast.Call) and dotted(tb_.func) == 'str.maketrans' and len(tb_.args) == 1 and isinstance(tb_.args[0], ast.Dict):
+                try:
+                    mp_ = T.ceval(he_, tb_.args[0])
+                except T.CannotEval:
+                    mp_ = None
+                if isinstance(mp_, dict) and all(isinstance(k_, str) and len(k_) == 1 for k_ in mp_):
+                    order = ['&'] + sorted(k_ for k_ in mp_ if k_ != '&') if '&' in mp_ else sorted(mp_)    # simultaneous: no order effects
+                    inner = tr_[0]
+    if order is None:
         R.undecided('C20.e', he_, he_.node, 'html_escape', 'neither a chain of replace() calls with constant arguments nor a loop over a constant table')
     else:
         chars = set(order)
@@ -295,7 +331,8 @@ def check(P, R):
                 det = '' if ok else ('the Accept media range is compared for equality with "application/json" without dropping its parameters: '
                                      '"application/json;q=0.9" or "application/json; charset=utf-8" no longer counts as a JSON request and gets the HTML page')
             else:
-                det = 'cannot recognise how a JSON request is detected'
+                R.undecided('C20.e', ij, r, f'{short(r)}: JSON detection', 'neither startswith("application/json") nor an equality test on the media range')
+                continue
         R.ob('C20.e', ij, r, ok, text=f'JSON requested <=> Accept starts with application/json: {short(v)}', detail=det,
              why='when JSON is requested the error body is valid JSON', key_extra='json-detect')
     rc = [c for c in walk_shallow(de.node) if isinstance(c, ast.Call) and dotted(c.func) == 'error_render.render']
